@@ -1,6 +1,7 @@
 package m3
 
-// quick-tier: yes (deterministic for a given VERIF_SEED, in-memory, < 1 s)
+// quick-tier: yes (deterministic for a given VERIF_SEED; in-memory apart from one unread
+// loopback UDP socket that a real reporter is pointed at; about 1 s)
 //
 // BOUNDED stand-in for the clauses of property C16 that no contract decides yet
 // (injected with go test -overlay): encode/decode round trip of metric batches, the
@@ -15,11 +16,14 @@ import (
 	"fmt"
 	"math"
 	"math/rand"
+	"net"
 	"os"
 	"reflect"
 	"strconv"
 	"testing"
+	"time"
 
+	tally "github.com/uber-go/tally/v4"
 	customtransport "github.com/uber-go/tally/v4/m3/customtransports"
 	m3thrift "github.com/uber-go/tally/v4/m3/thrift/v2"
 	"github.com/uber-go/tally/v4/thirdparty/github.com/apache/thrift/lib/go/thrift"
@@ -151,6 +155,64 @@ func TestVerifDriverC16(t *testing.T) {
 				}
 			}
 		}
+	}
+	// charged sizes of the pre-built metrics of a real reporter against the real encoder,
+	// for tag counts around the list-header boundaries (0..20 and 124..130 own tags):
+	// counters and gauges as allocated; histogram buckets as they are SENT (own tags plus
+	// the bucket-id and the bucket-range tag)
+	if sink, err := net.ListenUDP("udp", &net.UDPAddr{IP: net.IPv4(127, 0, 0, 1)}); err == nil {
+		for _, proto := range []Protocol{Compact, Binary} {
+			ri, err := NewReporter(Options{HostPorts: []string{sink.LocalAddr().String()}, Service: "svc", Env: "test", Protocol: proto})
+			if err != nil {
+				fail("NewReporter: %v", err)
+				continue
+			}
+			r := ri.(*reporter)
+			var fac thrift.TProtocolFactory = thrift.NewTCompactProtocolFactory()
+			if proto == Binary {
+				fac = thrift.NewTBinaryProtocolFactoryDefault()
+			}
+			mem := thrift.NewTMemoryBuffer()
+			enc := fac.GetProtocol(mem)
+			encoded := func(m m3thrift.Metric) int32 {
+				mem.Reset()
+				m.Write(enc)
+				return int32(mem.Len())
+			}
+			var counts []int
+			for n := 0; n <= 20; n++ {
+				counts = append(counts, n)
+			}
+			counts = append(counts, 124, 125, 126, 127, 128, 129, 130)
+			for _, n := range counts {
+				tags := map[string]string{}
+				for i := 0; i < n; i++ {
+					tags[fmt.Sprintf("k%03d", i)] = fmt.Sprintf("v%d", i)
+				}
+				label := fmt.Sprintf("protocol=%v tags=%d", proto, n)
+				if c := r.AllocateCounter("c", tags).(cachedMetric); c.size != encoded(c.metric) {
+					fail("%s: counter charged %d bytes, the encoder produces %d for the pre-built metric", label, c.size, encoded(c.metric))
+				}
+				if g := r.AllocateGauge("g", tags).(cachedMetric); g.size != encoded(g.metric) {
+					fail("%s: gauge charged %d bytes, the encoder produces %d for the pre-built metric", label, g.size, encoded(g.metric))
+				}
+				for _, bk := range []tally.Buckets{tally.ValueBuckets{1, 2.5, 1000}, tally.DurationBuckets{time.Millisecond, 90 * time.Second}} {
+					h := r.AllocateHistogram("h", tags, bk).(cachedHistogram)
+					for _, b := range append(append([]cachedHistogramBucket{}, h.cachedValueBuckets...), h.cachedDurationBuckets...) {
+						m := b.metric.metric
+						sent := append(append([]m3thrift.MetricTag{}, m.Tags...),
+							m3thrift.MetricTag{Name: r.bucketIDTagName, Value: b.bucketID},
+							m3thrift.MetricTag{Name: r.bucketTagName, Value: b.bucket})
+						m.Tags = sent
+						if want := encoded(m); b.metric.size != want {
+							fail("%s: histogram bucket %s charged %d bytes, the encoder produces %d for the metric as sent", label, b.bucket, b.metric.size, want)
+						}
+					}
+				}
+			}
+			ri.Close()
+		}
+		sink.Close()
 	}
 	if fails == 0 {
 		fmt.Fprintln(os.Stdout, "DRIVER-RESULT: ok")
